@@ -131,12 +131,13 @@ Definition exec_setrange (d : db) (args : list bytes) : reply * db :=
     match atoi64 off with
     | None => (err_other, d)
     | Some offset =>
-      if (offset <? 0) || (offset + zlength v >? max_string_len) then (err_other, d) else
+      if offset <? 0 then (err_other, d) else
       match (match db_get d k with None => Some [] | Some (VStr b) => Some b | Some _ => None end) with
       | None => (err_wrongtype, d)
       | Some old =>
         let len := zlength old in
         if zlength v =? 0 then (RInt len, d) else      (* nothing to write: no change, no key created *)
+        if offset + zlength v >? max_string_len then (err_other, d) else
         let new :=
           if offset >? len then old ++ zeros (Z.to_nat (offset - len)) ++ v
           else firstn (Z.to_nat offset) old ++ v ++ skipn (Z.to_nat (offset + zlength v)) old in
